@@ -60,6 +60,14 @@ GuardAdmitted(kind, s) ==
   IF Terminates(s, TagOf(kind)) THEN {"refused", "absent"}
   ELSE IF ~HasAny(s, {"<"}) THEN {"emitted"}
   ELSE {"refused", "absent", "emitted"}
+(* Histories.  A component class is rendered any number of times in one process (a server renders it for *)
+(* every request, also after a request that failed).  The property speaks about the CONTENT ("JS/CSS that  *)
+(* would terminate its own element is refused instead of being emitted"), so what may happen is the same   *)
+(* at every render, whatever happened at earlier renders of this or of other components: GuardAdmitted is  *)
+(* a function of (kind, s) alone and is applied to every render of a history.  In particular a content     *)
+(* that was refused once may not be emitted by a later render.  A history is a sequence of renders         *)
+(* [gkind, s, outcome, rest]; the bounded instance asks for Renders(kind, s) renders of every component.   *)
+HistoryAdmitted(h) == \A i \in 1..Len(h) : h[i].outcome \in GuardAdmitted(h[i].gkind, h[i].s)
 \* `rest` is the real output from just after the element's start tag to the end of the document:
 \* the element must contain exactly s (its own end tag, written by the library, is the first one)
 EmittedIntact(kind, s, rest) == ElementText(rest, TagOf(kind)) = s
